@@ -3,6 +3,7 @@ package isaacnet
 import (
 	"context"
 	"fmt"
+	"sort"
 	"sync"
 	"sync/atomic"
 	"time"
@@ -14,6 +15,7 @@ import (
 	isaacstates "github.com/spikeekips/mitum/isaac/states"
 	leveldbstorage "github.com/spikeekips/mitum/storage/leveldb"
 	"github.com/spikeekips/mitum/util"
+	"github.com/spikeekips/mitum/util/hint"
 )
 
 // Node is one honest node: everything except the block writer, the transport functions and the
@@ -32,6 +34,7 @@ type Node struct {
 	maker  *isaac.ProposalMaker
 	sel    *isaac.BaseProposalSelector
 	chain  *chain
+	sv     *isaac.SuffrageVoting
 
 	emu      sync.Mutex // {sequence number, sample of the last voteproofs} is one atomic step per node
 	bmu      sync.Mutex
@@ -98,11 +101,25 @@ func (n *Node) voteproofFields(e Ev, vp base.Voteproof) {
 	if m := vp.Majority(); m != nil {
 		nt.factFields(e, m)
 	}
+	nt.expelFields(e, vp)
 	switch vp.(type) {
 	case isaac.INITVoteproof, isaac.ACCEPTVoteproof:
+	case isaac.INITExpelVoteproof, isaac.ACCEPTExpelVoteproof:
+		e["vpkind"] = "expel"
+	case isaac.INITStuckVoteproof, isaac.ACCEPTStuckVoteproof:
+		e["vpkind"] = "stuck"
 	default:
 		e["vpkind"] = fmt.Sprintf("%T", vp)
 	}
+	voters := []string{}
+	for _, sf := range vp.SignFacts() {
+		if i := nt.indexOf(sf.Node()); i >= 0 {
+			voters = append(voters, nt.name(i))
+		}
+	}
+	sort.Strings(voters)
+	e["voters"] = voters
+	e["nsuf"] = nt.sufAt(vp.Point().Height().SafePrev()).Len()
 }
 
 // onBoxVoteproof: hook in Ballotbox.newVoteproof - the ballot box emits a voteproof.
@@ -143,6 +160,7 @@ func (n *Node) vote(bl base.Ballot) (bool, error) {
 	}
 	nt.pointFields(e, bl.Point())
 	nt.factFields(e, bl.SignFact().Fact().(base.BallotFact)) //nolint:forcetypeassert //...
+	nt.expelFields(e, bl)
 	nt.log.add(seq, e)
 	return voted, err
 }
@@ -173,6 +191,59 @@ func (n *Node) serveProposal(ctx context.Context, point base.Point, prev util.Ha
 }
 
 func noop() error { return nil }
+
+// expelProcessor: operation processor stub for the expel operations a suffrage-confirm voteproof hands to the
+// proposal processor (no state is written; the writer stub applies the expel when the block is saved)
+type expelProcessor struct{}
+
+func (expelProcessor) PreProcess(ctx context.Context, _ base.Operation, _ base.GetStateFunc) (context.Context, base.OperationProcessReasonError, error) {
+	return ctx, nil, nil
+}
+
+func (expelProcessor) Process(context.Context, base.Operation, base.GetStateFunc) ([]base.StateMergeValue, base.OperationProcessReasonError, error) {
+	return nil, base.NewBaseOperationProcessReason("verif: expel applied by the block writer stub"), nil
+}
+
+func (expelProcessor) Close() error { return nil }
+
+// onExpelMerged: SuffrageVoting's voted callback - the merged operation is gossiped to the reachable members
+// (launch.broadcastSuffrageVotingFunc -> memberlist -> SuffrageVotingVoteFunc of the receiver)
+func (n *Node) onExpelMerged(op base.SuffrageExpelOperation) {
+	nt := n.net
+	nt.noteExpelFact(op)
+	e := Ev{"a": "ExpelOp", "h": op.ExpelFact().ExpelStart().Int64()}
+	if t := nt.indexOf(op.ExpelFact().Node()); t >= 0 {
+		e["target"] = nt.name(t)
+	}
+	signers := []string{}
+	for _, sg := range op.NodeSigns() {
+		if j := nt.indexOf(sg.Node()); j >= 0 {
+			signers = append(signers, nt.name(j))
+		}
+	}
+	sort.Strings(signers)
+	e["signers"] = signers
+	n.emit(e)
+	for j, p := range nt.nodes {
+		if p == nil || j == n.idx || p.sv == nil {
+			continue
+		}
+		go func(j int, p *Node) {
+			time.Sleep(time.Duration(2+j) * time.Millisecond)
+			if !nt.reachable(n.idx, j) {
+				return
+			}
+			if err := op.IsValid(nt.networkID); err != nil {
+				return
+			}
+			suf := nt.sufAt(p.chain.height())
+			if err := isaac.IsValidExpelWithSuffrageLifespan(p.chain.height(), op, suf, 100); err != nil {
+				return
+			}
+			_, _ = p.sv.Vote(op)
+		}(j, p)
+	}
+}
 
 func newNode(nt *Net, idx int) (*Node, error) {
 	encs, enc := encoders()
@@ -218,8 +289,8 @@ func newNode(nt *Net, idx int) (*Node, error) {
 			}
 			return nodes[int((uint64(point.Height().Int64())+point.Round().Uint64())%uint64(len(nodes)))], nil
 		}).Select
-	sargs.GetNodesFunc = func(base.Height) ([]base.Node, bool, error) {
-		ns := nt.suf.Nodes()
+	sargs.GetNodesFunc = func(h base.Height) ([]base.Node, bool, error) {
+		ns := nt.sufAt(h).Nodes()
 		c := make([]base.Node, len(ns))
 		copy(c, ns)
 		return c, true, nil
@@ -238,6 +309,12 @@ func newNode(nt *Net, idx int) (*Node, error) {
 		return &writer{n: n, proposal: pr}, nil
 	}
 	ppargs.GetStateFunc = func(string) (base.State, bool, error) { return nil, false, nil }
+	ppargs.NewOperationProcessorFunc = func(_ base.Height, ht hint.Hint, _ base.GetStateFunc) (base.OperationProcessor, error) {
+		if ht.Type() == isaac.SuffrageExpelOperationHint.Type() {
+			return expelProcessor{}, nil // the expel takes effect when the block is saved (writer stub)
+		}
+		return nil, nil
+	}
 	ppargs.GetOperationFunc = func(context.Context, util.Hash, util.Hash) (base.Operation, error) {
 		return nil, isaac.ErrOperationNotFoundInProcessor.Errorf("no operations in this network")
 	}
@@ -265,11 +342,49 @@ func newNode(nt *Net, idx int) (*Node, error) {
 	)
 	n.pps.SetRetry(30*time.Millisecond, 4)
 
+	// launch.PSuffrageVoting: real SuffrageVoting over the node's TempPool; a merged operation is gossiped
+	findExpels := func(context.Context, base.Height, base.Suffrage) ([]base.SuffrageExpelOperation, error) {
+		return nil, nil
+	}
+	var resolver isaacstates.BallotStuckResolver
+	if nt.cfg.Scenario == "x" {
+		n.sv = isaac.NewSuffrageVoting(local.Address(), pool,
+			func(util.Hash) (bool, error) { return false, nil },
+			func(op base.SuffrageExpelOperation) error {
+				n.onExpelMerged(op)
+				return nil
+			})
+		n.box.SetSuffrageVoteFunc(func(op base.SuffrageExpelOperation) error {
+			_, err := n.sv.Vote(op)
+			return err
+		})
+		findExpels = func(ctx context.Context, h base.Height, suf base.Suffrage) ([]base.SuffrageExpelOperation, error) {
+			return n.sv.Find(ctx, h, suf)
+		}
+		// launch.PBallotStuckResolver (the request for missing ballots is a no-op: ballots are re-broadcast anyway)
+		votesv := isaacstates.VoteSuffrageVotingFunc(local, nt.networkID, n.box, n.sv, nt.getSuffrage)
+		resolver = isaacstates.NewDefaultBallotStuckResolver(
+			stuckWait, stuckInterval, stuckResolveAfter,
+			isaacstates.FindMissingBallotsFromBallotboxFunc(local.Address(), nt.getSuffrage, n.box),
+			func(context.Context, base.StagePoint, []base.Address) error { return nil },
+			func(ctx context.Context, point base.StagePoint, nodes []base.Address) (base.Voteproof, error) {
+				vp, err := votesv(ctx, point, nodes)
+				if err == nil && vp != nil {
+					e := Ev{"a": "StuckVP"}
+					n.voteproofFields(e, vp)
+					nt.firstSeenVoteproof(vp.ID())
+					n.emit(e)
+				}
+				return vp, err
+			},
+		)
+	}
+
 	// launch.PStates
 	args := isaacstates.NewStatesArgs()
 	args.Ballotbox = n.box
 	args.LastVoteproofsHandler = n.lvps
-	args.BallotStuckResolver = nil
+	args.BallotStuckResolver = resolver
 	args.IntervalBroadcastBallot = func() time.Duration { return intervalBroadcastBallot }
 	args.AllowConsensus = true
 	_ = n.box.SetLastPointFromVoteproof(n.lvps.Last().Cap())
@@ -288,9 +403,6 @@ func newNode(nt *Net, idx int) (*Node, error) {
 
 	// launch.PStatesSetHandlers
 	votef := func(bl base.Ballot) (bool, error) { return n.vote(bl) }
-	findExpels := func(context.Context, base.Height, base.Suffrage) ([]base.SuffrageExpelOperation, error) {
-		return nil, nil
-	}
 	states.SetWhenStateSwitched(func(next isaacstates.StateType) {
 		n.visited.Store(next.String(), true)
 		n.emit(Ev{"a": "Switched", "state": next.String()})
